@@ -591,6 +591,14 @@ def doOp (a : Acc) (idx : Nat) (op : Json) : R Acc := do
       return { a1 with s := { a1.s with db := compactRaced true a.s.db a1.s.db ds } }
     | _, _ => doOpCore a idx op
   else
+  if (← getStr op "op") == "msrun" && getBoolD op "duringRan" false then
+    -- C18, forced schedule: a write landed between two pages of the run; it wrote to a dependency dataset only, so the
+    -- run itself is that of the state before the write, and the write comes after it
+    let a1 ← doOpCore a idx op
+    match getOpt op "during" with
+    | some du => doOpCore a1 idx (← getObj du "inner")
+    | none => return a1
+  else
   if ((← getStr op "op") == "store" || (← getStr op "op") == "txn") && (getOpt op "race").isSome then
     -- forced schedule of two writers: both must return, and the outcome is that of the two writes one after
     -- the other (in the order the run reports: who committed first)
